@@ -20,7 +20,7 @@ ASSUMPTIONS = ["an auxiliary input is bound to its cut node by the name c0_aux_i
 
 def bounds(tier):
     q = tier == "quick"
-    return {"spaces": [[1, 2, 3], [2, 2, 3], [1, 3, 2]] if q else [[1, 2, 3], [2, 2, 3], [1, 3, 3], [2, 3, 2], [1, 4, 2]],
+    return {"spaces": [[0, 2, 3], [0, 3, 2], [1, 2, 3], [2, 2, 3], [1, 3, 2]] if q else [[1, 2, 3], [2, 2, 3], [1, 3, 3], [2, 3, 2], [1, 4, 2]],
             "types_big": ("and", "nor", "xor", "not", "buf")}
 
 
@@ -61,13 +61,15 @@ def bind_aux(c, r, aux):
     return m
 
 
-def check(acc, desc, values=True):
+def check(acc, desc, values=True, repeat=False):
     import circuitgraph as cg
 
-    case = {"kind": "cyclic", "desc": desc}
+    case = {"kind": "cyclic", "desc": desc, "repeat": repeat}
     c = space.build(desc)
     acc.transitions += 1
     try:
+        if case.get("repeat"):
+            cg.tx.acyclic_unroll(c)  # an earlier call on the same object must not matter
         r = cg.tx.acyclic_unroll(c)
     except Exception as e:  # noqa: BLE001
         acc.violation("cyclic", f"raises:{common.exc_name(e)}", case, repr(e))
@@ -182,6 +184,9 @@ def run(job):
             acc.states += 1
             if check(acc, desc):
                 acc.nontrivial += 1
+        if (_idx // job["of"]) % 8 == 0:
+            acc.states += 1
+            check(acc, desc, repeat=True)
         acc.sample({"desc": desc})
         if acc.out_of_time():
             break
@@ -191,5 +196,5 @@ def run(job):
 def replay(case, job):
     common.setup_paths()
     acc = Acc(job)
-    check(acc, case["desc"])
+    check(acc, case["desc"], repeat=case.get("repeat", False))
     return acc.result()
